@@ -80,7 +80,7 @@ pub const ROUTES: [Route; 9] = [
 
 /// Sinks: statements with the hole `$E` (the routed expression). `$L` = an l-value holding
 /// the routed value (a variable), created on demand by `make lv get $E`.
-pub const SINKS: [(&str, &str); 88] = [
+pub const SINKS: &[(&str, &str)] = &[
     ("add-left-num", "shout($E add 1)"),
     ("add-right-num", "shout(1 add $E)"),
     ("add-left-str", "shout($E add \"s\")"),
@@ -169,6 +169,30 @@ pub const SINKS: [(&str, &str); 88] = [
     ("builtin-read_line", "shout(read_line($E))"),
     ("interpolation", "make lv get $E\nshout(\"<{lv}>\")"),
     ("user-call-arg", "do id(q) start\n    return q\nend\nshout(id($E))"),
+    // wrong number of arguments for a built-in method on a dynamically typed receiver
+    ("arity-len-1", "shout($E.len(1))"),
+    ("arity-slice-1", "shout($E.slice(1))"),
+    ("arity-slice-3", "shout($E.slice(0, 1, 2))"),
+    ("arity-find-0", "shout($E.find())"),
+    ("arity-replace-1", "shout($E.replace(\"a\"))"),
+    ("arity-split-0", "shout($E.split())"),
+    ("arity-join-0", "shout($E.join())"),
+    ("arity-push-0", "make lv get $E\nlv.push()\nshout(lv)"),
+    ("arity-push-2", "make lv get $E\nlv.push(1, 2)\nshout(lv)"),
+    ("arity-pop-1", "make lv get $E\nshout(lv.pop(1))"),
+    ("arity-abs-1", "shout($E.abs(1))"),
+    ("arity-arg-0", "make lv get $E\nlv.arg()\nshout(typeof(lv))"),
+    ("arity-env-1", "make lv get $E\nlv.env(\"K\")\nshout(typeof(lv))"),
+    ("arity-run-1", "shout(typeof($E.run(1)))"),
+    ("arity-stdout-1", "shout($E.stdout(1))"),
+    // the value only reaches the sink on a LATER evaluation (first evaluation is well typed)
+    ("loop-condition-second-eval", "make q get [$E, true]\nmake n get 0\njasi (q.pop()) start\n    n get n add 1\n    if to say (n pass 3) start\n        comot\n    end\n    shout(1)\nend"),
+    ("loop-condition-reassigned", "make lv get [true, $E]\nmake c get lv[0]\nmake n get 0\njasi (c) start\n    n get n add 1\n    if to say (n pass 3) start\n        comot\n    end\n    c get lv[1]\nend"),
+    ("if-condition-in-loop", "make q get [$E, true, false]\nmake n get 0\njasi (n small pass 3) start\n    n get n add 1\n    if to say (q.pop()) start\n        shout(n)\n    end\nend"),
+    ("operand-in-loop", "make q get [$E, 1, 2]\nmake n get 0\njasi (n small pass 3) start\n    n get n add 1\n    shout(q.pop() times 2)\nend"),
+    ("and-operand-in-loop", "make q get [$E, true]\nmake n get 0\njasi (n small pass 2) start\n    n get n add 1\n    shout(true and q.pop())\nend"),
+    ("index-in-loop", "make q get [$E, [1]]\nmake n get 0\njasi (n small pass 2) start\n    n get n add 1\n    make e get q.pop()\n    shout(e[0])\nend"),
+    ("method-in-recursion", "make q get [$E, \"ab\", \"cd\"]\ndo rec(n) start\n    if to say (n small pass 1) start\n        return 0\n    end\n    make e get q.pop()\n    shout(e.len())\n    return rec(n minus 1)\nend\nshout(rec(3))"),
 ];
 
 /// Special shapes that do not fit the (route, sink) product.
@@ -310,7 +334,7 @@ fn piece_strategy() -> impl Strategy<Value = Piece> {
 /// Renames the fixed identifiers of a grid fragment so that several fragments can share a program.
 fn rename(src: &str, k: usize) -> String {
     let mut out = src.to_string();
-    for name in ["arr", "lv", "a2", "c2", "id", "w", "g", "h", "r", "t", "x", "p", "q"] {
+    for name in ["arr", "lv", "a2", "c2", "id", "rec", "w", "g", "h", "r", "t", "x", "p", "q", "c", "n", "e"] {
         // whole-word replacement
         let mut res = String::new();
         let bytes = out.as_bytes();
@@ -395,7 +419,11 @@ impl Check for C06 {
             TYPES.len(),
             ROUTES.len(),
             SPECIALS.len()
-        )
+        ) + " Sinks include built-in methods with the wrong number of arguments on dynamically typed receivers and \
+             `later evaluation` shapes (loop / if condition, operand, index, method receiver that is well typed on the \
+             first evaluation and ill typed on a later one, inside loops and recursion). (3) proptest: the string \
+             built-ins find / replace / split / join / slice called from a script with generated (periodic, \
+             near-periodic, multi-byte, long) haystacks, needles and bounds routed through parameters."
     }
 
     fn assumptions(&self) -> Vec<String> {
@@ -434,6 +462,39 @@ impl Check for C06 {
             SINKS.len() * TYPES.len() * ROUTES.len(),
             SPECIALS.len()
         ));
+        // (3) string built-ins through a script (the property names tw.rs / replace.rs / string.rs)
+        let n_str = ctx.tier.pick(2_500, 40_000);
+        crate::prop::run(ctx, "string-builtins", n_str, crate::c13::search_strategy(), |ctx, case| {
+            let crate::c13::Case::Search { hay, needle, repl } = case else {
+                return Outcome::Pass;
+            };
+            let src = crate::c13::script_for_search(hay, needle, repl);
+            ctx.eval();
+            match run_program(&src) {
+                RunVerdict::Crash(c) => Outcome::Fail(Failure {
+                    sig: format!("crash|{c}|sink=string-builtin|type=string"),
+                    what: format!("string built-in crashed the interpreter ({c})\n--- program ---\n{src}"),
+                    input: json!({"kind": "strings", "source": src}),
+                }),
+                RunVerdict::Inconclusive => {
+                    ctx.inconclusive += 1;
+                    Outcome::Discard("U8 arena exhaustion / watchdog")
+                }
+                RunVerdict::Rejected => {
+                    ctx.class("string script rejected statically");
+                    Outcome::Pass
+                }
+                RunVerdict::Ok { .. } => {
+                    ctx.class("string built-ins via script");
+                    if needle.len() > 16 {
+                        ctx.class("string built-ins via script, needle > 16 bytes");
+                        ctx.nontrivial(hash_str(&src));
+                        ctx.sample("string built-ins via script", J::String(src.clone()));
+                    }
+                    Outcome::Pass
+                }
+            }
+        });
         // (2) random compositions
         let cases = ctx.tier.pick(6_000, 60_000);
         crate::prop::run(
@@ -479,6 +540,20 @@ impl Check for C06 {
     }
 
     fn replay(&self, _ctx: &mut ShardCtx, _stage: &str, input: &J) -> Outcome {
+        if input.get("kind").and_then(J::as_str) == Some("strings") {
+            let Some(src) = input.get("source").and_then(J::as_str) else {
+                return Outcome::Discard("unreadable replay input");
+            };
+            return match run_program(src) {
+                RunVerdict::Crash(c) => Outcome::Fail(Failure {
+                    sig: format!("crash|{c}|sink=string-builtin|type=string"),
+                    what: format!("string built-in crashed the interpreter ({c})\n--- program ---\n{src}"),
+                    input: input.clone(),
+                }),
+                RunVerdict::Inconclusive => Outcome::Discard("U8"),
+                _ => Outcome::Pass,
+            };
+        }
         let Some(src) = input.get("source").and_then(J::as_str) else {
             return Outcome::Discard("unreadable replay input");
         };
